@@ -775,7 +775,9 @@ func (k *c14case) checkContext(cs []*mdiff.Chunk, fi *mdiff.FileInfo) (text stri
 	return text
 }
 
-var c14names = []string{"a.txt", "dir/original.go", "with space.txt", "ünï.c", "b", "x/y/z", "---", "+++ q", "@@", "100%done.txt", "%s", "a%20b.c", "%!d(x)%v", "back\\slash", "quo\"te"}
+var c14names = []string{"a.txt", "dir/original.go", "with space.txt", "ünï.c", "b", "x/y/z", "---", "+++ q", "@@", "100%done.txt", "%s", "a%20b.c", "%!d(x)%v", "back\\slash", "quo\"te",
+	// names that look like other notations: C-quoted (git core.quotePath, GNU diff), shell-quoted, prefixed, special
+	"\"draft\"", "\"final copy\"", "\"\\303\\274.c\"", "'single'", "a/x.go", "b/x.go", "dev/null", "\"", "\"\"", " lead", "trail ", "\\\"x\\\"", "\ufeffbom.txt", "x#y", "~"}
 
 func c14fileInfo(r *rand.Rand) *mdiff.FileInfo {
 	if r.IntN(3) == 0 {
